@@ -37,7 +37,7 @@ class HistoryRunner:
     """Performs one random operation per call to step(); never raises (failed API calls are part of the history)."""
 
     KINDS = ["create", "create", "delete", "delete", "move", "move_sibling", "move_sibling", "link_add", "link_del", "attr_set", "create_bad",
-             "setlist", "clear", "reqrel_create", "reqrel_del", "reqrel_del", "new_namespace", "delete_linked", "use_stale"]
+             "setlist", "clear", "reqrel_create", "reqrel_del", "reqrel_del", "new_namespace", "delete_linked", "use_stale", "role_replace"]
 
     def __init__(self, model, rng: random.Random, savedir=None, kinds: list[str] | None = None):
         self.model, self.rng, self.savedir = model, rng, savedir
@@ -118,6 +118,32 @@ class HistoryRunner:
         else:
             lst.create(name="x", description=object())
         return self._last + " (unexpectedly succeeded)"
+
+    def op_role_replace(self):
+        """Assign a new object to a single-valued containment role: an empty role is filled, a filled one gets an object of ANOTHER class
+        (the old child leaves the model and must leave the lookups with it)."""
+        import capellambse
+        from capellambse.model import _descriptors as D
+
+        def single_roles(o):
+            out = []
+            for n in dir(type(o)):
+                a = getattr(type(o), n, None)
+                if isinstance(a, D.RoleTagAccessor) and getattr(a, "aslist", 1) is None:
+                    out.append(n)
+            return out
+        o = self.pick(lambda o: bool(single_roles(o)))
+        if o is None:
+            return None
+        name = self.rng.choice(single_roles(o))
+        cur = getattr(o, name)
+        classes = ["LiteralNumericValue", "LiteralStringValue", "LiteralBooleanValue"]
+        if cur is not None and self.rng.random() < 0.85:
+            classes = [c for c in classes if c != type(cur).__name__]
+        cls = self.rng.choice(classes)
+        self._last = f"{type(o).__name__}({o.uuid}).{name} = new_object({cls}) (was {type(cur).__name__ if cur is not None else None})"
+        setattr(o, name, D.NewObject(cls, value={"LiteralNumericValue": "3", "LiteralStringValue": "s", "LiteralBooleanValue": True}[cls]))
+        return self._last
 
     def op_delete(self):
         for _ in range(25):
